@@ -89,6 +89,10 @@ class Ctx:
     # ---- trace validation (code -> spec) ----------------------------------
     def validate(self, module, events, shards=16, timeout=1800, cfg=None, env=None,
                  count_traces=None, group=None):
+        if os.environ.get("VERIF_VERBOSE"):
+            import hashlib
+            self.log("events digest %s %s n=%d" % (module, hashlib.sha256(json.dumps(
+                events, sort_keys=True, default=str).encode()).hexdigest()[:16], len(events)))
         verdicts, st = T.validate_events(module, events, self.work, shards=shards,
                                          timeout=timeout, cfg=cfg, env=env, group=group)
         self.states += st["states"]
